@@ -120,7 +120,41 @@ func opSituation(s *refmvcc.Store, o Op, idx int) string {
 			return "own-prewrite-lock"
 		}
 	}
-	return situation(s, o.Keys[idx], o.Start, ex)
+	return situation(s, o.Keys[idx], o.Start, ex) + lockFieldSituation(s, o, o.Keys[idx])
+}
+
+// lockFieldSituation relates the ttl / min-commit-ts / commit-ts argument of a
+// command to what the transaction's own lock on k holds. Only the relations
+// in which the lock's value has to win are named (the request asks for less
+// than the lock holds; a commit below the lock's min-commit-ts; a heartbeat
+// that advises less than the lock's ttl), so that the common case keeps its key.
+func lockFieldSituation(s *refmvcc.Store, o Op, k string) string {
+	l := s.LockOf(k)
+	if l == nil || l.Start != o.Start {
+		return ""
+	}
+	q := ""
+	switch o.Kind {
+	case "prewrite", "plock":
+		if l.Op != refmvcc.OpPessimistic && o.Kind == "plock" {
+			return ""
+		}
+		if o.ttl() < l.TTL {
+			q += "+req-ttl-below-lock"
+		}
+		if o.MinCommit < l.MinCommit {
+			q += "+req-min-commit-below-lock"
+		}
+	case "commit":
+		if o.Commit < l.MinCommit {
+			q += "+below-min-commit"
+		}
+	case "heartbeat":
+		if o.Advise < l.TTL {
+			q += "+advise-below-ttl"
+		}
+	}
+	return q
 }
 
 func payloadEqual(a, b refmvcc.Err, rpc bool) bool {
